@@ -63,7 +63,17 @@ pub enum Op {
     Persist { fmt: Fmt },
     /// drop the live sampler, restore from the durable slot (persisting first if
     /// the slot is empty), optionally publish the restored object to the others
-    Restart { fmt: Fmt, behaviour: ReadBehaviour, publish: bool },
+    /// `place`: 0 = into a fresh value (`T::deserialize`); 1 = INTO a clone of the
+    /// sampler in use, 2 = INTO a clone of the scenario's other sampler if it has the
+    /// same D (`T::deserialize_in_place`: the target already holds a table, perhaps
+    /// a larger one)
+    Restart {
+        fmt: Fmt,
+        behaviour: ReadBehaviour,
+        publish: bool,
+        #[serde(default)]
+        place: u8,
+    },
     /// a SampleX whose scalar seam unwinds at its `at`-th event (cancellation)
     Aborted { point: Vec<u64>, ed: EdgeData, st: Settings, at: u64 },
     /// a SampleX that unwinds out of the first user callback of ANY kind (arithmetic,
@@ -78,6 +88,20 @@ pub enum Op {
     /// `n` samples at `n` DIFFERENT pseudo-random points; every one is compared with
     /// a sampler without history (freshly restored from the image every 64 calls)
     Burst { seed: u64, n: u64, ed: EdgeData, st: Settings },
+    /// a SampleX from inside which, at its `at`-th scalar event, ANOTHER sample call
+    /// is made on the same sampler and thread (a callback of the user's scalar type
+    /// calling back into the library; re-entrancy): `prec` 0 runs the inner call
+    /// with the f64 newtype, otherwise with the precision-carrying scalar
+    Nested {
+        point: Vec<u64>,
+        ed: EdgeData,
+        st: Settings,
+        at: u64,
+        ipoint: Vec<u64>,
+        ied: EdgeData,
+        ist: Settings,
+        prec: u8,
+    },
     /// SimStore image of the sampler in use
     ImageCheck,
     /// the same operation `n` times in a row
@@ -101,6 +125,7 @@ impl Op {
             Op::AbortedAny { .. } => "aborted_sample_any_callback",
             Op::AbortedRng { .. } => "aborted_rng_sample",
             Op::ImageCheck => "image",
+            Op::Nested { .. } => "sample_x_with_reentrant_call",
             Op::Burst { .. } => "burst",
             Op::SampleXP { .. } => "sample_x_precision_carrying_scalar",
             Op::Repeat { .. } => "repeat",
@@ -313,7 +338,17 @@ fn exec_on(envs: &[Arc<Env>], e: usize, cs: &mut ClientState, op: &Op, record_tr
                 Err(e) => Outcome::Err(e),
             }
         }
-        Op::Restart { fmt, behaviour, publish } => {
+        Op::Restart { fmt, behaviour, publish, place } => {
+            // where an in-place restore goes: decided before the live object is dropped
+            let target: Option<Arc<dyn Sampler>> = match *place {
+                1 => Some(current(env, cs, e)),
+                2 => envs
+                    .get(1 - e.min(1))
+                    .filter(|o| envs.len() == 2 && o.spec.d == env.spec.d)
+                    .map(|o| o.shared.lock().unwrap().0.clone())
+                    .or_else(|| Some(current(env, cs, e))),
+                _ => None,
+            };
             let have = env.disk.lock().unwrap().clone();
             let dur = match have {
                 Some(d) => Ok(d),
@@ -327,7 +362,26 @@ fn exec_on(envs: &[Arc<Env>], e: usize, cs: &mut ClientState, op: &Op, record_tr
             match dur {
                 Err(e) => Outcome::Err(format!("persist failed: {}", e)),
                 Ok(d) => {
-                    let restored = match &d {
+                    let in_place = target.as_ref().and_then(|tg| {
+                        use crate::sampler::InPlaceForm;
+                        let mut b = *behaviour;
+                        match &d {
+                            Durable::Tree(t) => {
+                                b.binary = false;
+                                tg.restore_into(env.spec.d, &InPlaceForm::Tree(t, b))
+                            }
+                            Durable::TreeBinary(t) => {
+                                b.binary = true;
+                                tg.restore_into(env.spec.d, &InPlaceForm::Tree(t, b))
+                            }
+                            Durable::Json(j) => tg.restore_into(env.spec.d, &InPlaceForm::Json(j)),
+                            Durable::JsonValue(v) => tg.restore_into(env.spec.d, &InPlaceForm::JsonValue(v)),
+                        }
+                    });
+                    let restored = if let Some(r) = in_place {
+                        r
+                    } else {
+                        match &d {
                         Durable::Tree(t) => {
                             let mut b = *behaviour;
                             b.binary = false;
@@ -340,6 +394,7 @@ fn exec_on(envs: &[Arc<Env>], e: usize, cs: &mut ClientState, op: &Op, record_tr
                         }
                         Durable::Json(j) => sampler::restore_json(env.spec.d, j),
                         Durable::JsonValue(v) => sampler::restore_json_value(env.spec.d, v),
+                        }
                     };
                     match restored {
                         Err(e) => Outcome::Err(format!("restore failed: {}", e)),
@@ -359,6 +414,33 @@ fn exec_on(envs: &[Arc<Env>], e: usize, cs: &mut ClientState, op: &Op, record_tr
         }
         Op::ImageCheck => Outcome::Image(current(env, cs, e).image_settled().digest()),
         Op::SampleXP { point, ed, st, prec } => current(env, cs, e).sample_x_p(point, ed, st, *prec),
+        Op::Nested { point, ed, st, at, ipoint, ied, ist, prec } => {
+            let s = current(env, cs, e);
+            let slot: std::rc::Rc<std::cell::RefCell<Option<Outcome>>> = std::rc::Rc::new(std::cell::RefCell::new(None));
+            {
+                let (s2, ip, ie, is_, pr, slot2) = (s.clone(), ipoint.clone(), ied.clone(), ist.clone(), *prec, slot.clone());
+                ctx::set_reenter(
+                    *at,
+                    Box::new(move || {
+                        let o = if pr == 0 { s2.sample_x(&ip, &ie, &is_) } else { s2.sample_x_p(&ip, &ie, &is_, pr) };
+                        *slot2.borrow_mut() = Some(o);
+                    }),
+                );
+            }
+            let outer = s.sample_x(point, ed, st);
+            // the outer call had fewer events than `at` (or this is the reference
+            // execution, at = MAX): the inner call runs after it, not nested
+            let nested = match ctx::take_reenter() {
+                Some(f) => {
+                    f();
+                    0
+                }
+                None => 1,
+            };
+            let inner = slot.borrow_mut().take().unwrap_or(Outcome::Unit);
+            aux = vec![hash_str(&format!("{:?}", inner)), nested];
+            outer
+        }
         Op::Burst { seed, n, ed, st } => {
             let s = current(env, cs, e);
             let dim = s.dimension();
@@ -448,6 +530,7 @@ pub struct RunStats {
     pub bursts: u64,
     pub burst_calls: u64,
     pub long_bursts: u64,
+    pub nested_calls: u64,
     pub lock_handovers: u64,
 }
 
@@ -595,7 +678,22 @@ fn reference_t(spec: &GraphSpec, refs: &Arc<dyn Sampler>, op: &Op, trace: bool) 
     let mut cs = ClientState::new();
     // wrappers removed: the reference of Repeat / Alt is the inner operation, once,
     // on the pristine sampler of its own graph
-    exec_op(&envs, &mut cs, op.strip().1, trace, u64::MAX)
+    match op.strip().1 {
+        Op::Nested { point, ed, st, ipoint, ied, ist, prec, .. } => {
+            let flat = Op::Nested {
+                point: point.clone(),
+                ed: ed.clone(),
+                st: st.clone(),
+                at: u64::MAX,
+                ipoint: ipoint.clone(),
+                ied: ied.clone(),
+                ist: ist.clone(),
+                prec: *prec,
+            };
+            exec_op(&envs, &mut cs, &flat, trace, u64::MAX)
+        }
+        o => exec_op(&envs, &mut cs, o, trace, u64::MAX),
+    }
 }
 
 pub fn run_scenario(sc: &Scenario, opts: &RunOpts) -> RunReport {
@@ -1019,6 +1117,21 @@ pub fn run_scenario(sc: &Scenario, opts: &RunOpts) -> RunReport {
                         expected: "every sample equal to the one a sampler without history gives".into(),
                         observed: m.clone(),
                     });
+                }
+            }
+            if let Op::Nested { .. } = inner {
+                if r.aux.first() != exp.aux.first() {
+                    violations.push(Violation {
+                        class: "reentrant-call-differs".into(),
+                        client: ci,
+                        op: oi,
+                        op_tag: op.tag().into(),
+                        expected: format!("inner call (made after the outer one, not nested): result digest {:016x}", exp.aux.first().copied().unwrap_or(0)),
+                        observed: format!("inner call made from inside a scalar callback of the outer call: result digest {:016x}", r.aux.first().copied().unwrap_or(0)),
+                    });
+                }
+                if r.aux.get(1) == Some(&1) {
+                    stats.nested_calls += 1;
                 }
             }
             if let Op::SampleRng { .. } = inner {
